@@ -3,4 +3,4 @@ package engnode
 import "os"
 
 func mkTemp() (string, error) { return os.MkdirTemp("", "zzv-node-") }
-func rmTemp(d string)          { _ = os.RemoveAll(d) }
+func rmTemp(d string)         { _ = os.RemoveAll(d) }
